@@ -24,11 +24,12 @@ func init() {
 		Covers:         "model/textparse: PromParser.{Next,Labels,Series}, OpenMetricsParser.{Next,Labels,Series,Exemplar}, ProtobufParser.{Type,Histogram,getMagicLabel,Exemplar}, normalizeFloatsInLabelValues; callers of Parser.Exemplar in scrape and textparse.",
 		NotCover:       "the generated lexers and everything value-level: that the tokens, numbers, escapes and UTF-8 names read are the ones written by an encoder; crash-freedom on arbitrary bytes; classic-histogram series expansion of the protobuf parser.",
 		Run:            runC35,
-		MinObligations: 30,
+		MinObligations: 70,
 	})
 }
 
 func runC35(c *eng.Ctx) {
+	defer runC35Pointers(c)
 	p := c.P
 	T := "model/textparse:"
 	// ---- R1 metric type tables ----
